@@ -729,6 +729,8 @@ def gen_digest_case(rng, cfg, world):
                 wellformed = None
         if server_codec == 'ascii' and text_class(text) != 'ascii':
             conforming = False
+    if sent_qop == 'auth-int' and wellformed is True:
+        wellformed = None       # the tool never offers auth-int: answering 400 to it is as good as 401
     return {'cfg': cfg, 'kind': kind, 'method': method, 'body': body, 'now': now, 'header': header,
             'cands': cands, 'genuine': genuine, 'conforming': conforming, 'wellformed': wellformed,
             'sent_alg': sent_alg, 'sent_qop': sent_qop, 'age': age,
